@@ -16,6 +16,7 @@
 -/
 import Gozod.Model.GenTyped
 import Gozod.Gen.MethodTable
+import Gozod.Gen.WriterFacts
 namespace Gozod.C13
 open Gozod.GenEmit Gozod.GenTyped Gozod.TagParser
 
@@ -35,6 +36,7 @@ def absOf : ArgClass → Option AShape
 def absFits : AShape → PK → Bool
   | _, .any => true
   | _, .other => false
+  | _, .schemaOf => false
   | .int64Lit, .basic b => b == .int || b == .int64 || isFloaty b
   | .floatLit, .basic b => isFloaty b
   | .strLit, .basic b => b == .string
@@ -82,6 +84,7 @@ theorem fits_of_abs (a : ArgClass) (s : AShape) (p : PK) (ha : absOf a = some s)
       cases p with
       | any => rfl
       | other => simp [absFits] at hf
+      | schemaOf => simp [absFits] at hf
       | regexp => simp [absFits] at hf
       | basic b =>
         simp only [absFits, Bool.or_eq_true, beq_iff_eq] at hf
@@ -98,6 +101,7 @@ theorem fits_of_abs (a : ArgClass) (s : AShape) (p : PK) (ha : absOf a = some s)
     cases p with
     | any => rfl
     | other => simp [absFits] at hf
+    | schemaOf => simp [absFits] at hf
     | regexp => simp [absFits] at hf
     | basic b => simp only [absFits] at hf; simp [fits, hf]
   | strLit =>
@@ -105,6 +109,7 @@ theorem fits_of_abs (a : ArgClass) (s : AShape) (p : PK) (ha : absOf a = some s)
     cases p with
     | any => rfl
     | other => simp [absFits] at hf
+    | schemaOf => simp [absFits] at hf
     | regexp => simp [absFits] at hf
     | basic b => simp only [absFits] at hf; simp [fits, hf]
   | boolLit =>
@@ -112,6 +117,7 @@ theorem fits_of_abs (a : ArgClass) (s : AShape) (p : PK) (ha : absOf a = some s)
     cases p with
     | any => rfl
     | other => simp [absFits] at hf
+    | schemaOf => simp [absFits] at hf
     | regexp => simp [absFits] at hf
     | basic b => simp only [absFits] at hf; simp [fits, hf]
   | regexp =>
@@ -119,6 +125,7 @@ theorem fits_of_abs (a : ArgClass) (s : AShape) (p : PK) (ha : absOf a = some s)
     cases p with
     | any => rfl
     | other => simp [absFits] at hf
+    | schemaOf => simp [absFits] at hf
     | regexp => rfl
     | basic b => simp [absFits] at hf
 
@@ -185,9 +192,9 @@ theorem runCalls_of_allowed (T : MethodTable) (shapes : List Shape) (R : List Na
     exact ⟨ty'', hty'', by simp [runCalls, hs, hr]⟩
 
 /-- **Typing of arbitrary chains over a closed set of types** (any table, any number and order of calls). -/
-theorem wellTyped_of_allowed (T : MethodTable) (shapes : List Shape) (R : List Nat) (c : Chain) (ty₀ : Nat)
-    (h0 : ctorType T c.ctor = some ty₀) (hin : ty₀ ∈ R) (hc : closedB T R shapes = true)
-    (hall : c.calls.all (allowed shapes) = true) : wellTyped T c = some true := by
+theorem wellTyped_of_allowed (T : MethodTable) (ti : Bool) (shapes : List Shape) (R : List Nat) (c : Chain) (ty₀ : Nat)
+    (h0 : ctorType T ti c.ctor = some ty₀) (hin : ty₀ ∈ R) (hc : closedB T R shapes = true)
+    (hall : c.calls.all (allowed shapes) = true) : wellTyped T ti c = some true := by
   obtain ⟨ty', _, hr⟩ := runCalls_of_allowed T shapes R hc c.calls ty₀ hin hall
   simp [wellTyped, h0, hr]
 
@@ -195,8 +202,9 @@ theorem wellTyped_of_allowed (T : MethodTable) (shapes : List Shape) (R : List N
 
 def modShapes : List Shape := [("Nilable", []), ("Optional", [])]
 def numNames : List String := ["Min", "Max", "Gt", "Gte", "Lt", "Lte", "Default", "Prefault"]
+def signNames : List String := ["Positive", "Negative", "NonNegative", "NonPositive"]
 
-inductive KindClass | str | int | float | bool | enum | none
+inductive KindClass | str | int | float | bool | enum | sized | modOnly | none
   deriving DecidableEq, Repr
 
 def _root_.Gozod.GenEmit.Basic.cls : Basic → KindClass
@@ -208,12 +216,14 @@ def _root_.Gozod.GenEmit.Basic.cls : Basic → KindClass
 
 /-- the call shapes of the documented rules, per class of schema -/
 def shapesOf : KindClass → List Shape
-  | .str => [("Min", [.int64Lit]), ("Max", [.int64Lit]), ("Email", []), ("Regex", [.regexp]),
+  | .str => [("Min", [.int64Lit]), ("Max", [.int64Lit]), ("Length", [.int64Lit]), ("Email", []), ("Regex", [.regexp]),
              ("Default", [.strLit]), ("Prefault", [.strLit])] ++ modShapes
-  | .int => numNames.map (·, [.int64Lit]) ++ modShapes
-  | .float => numNames.map (·, [.int64Lit]) ++ numNames.map (·, [.floatLit]) ++ modShapes
+  | .int => numNames.map (·, [.int64Lit]) ++ signNames.map (·, []) ++ modShapes
+  | .float => numNames.map (·, [.int64Lit]) ++ numNames.map (·, [.floatLit]) ++ signNames.map (·, []) ++ modShapes
   | .bool => [("Default", [.boolLit]), ("Prefault", [.boolLit])] ++ modShapes
   | .enum => [("Default", [.strLit]), ("Prefault", [.strLit])] ++ modShapes
+  | .sized => [("Min", [.int64Lit]), ("Max", [.int64Lit]), ("Length", [.int64Lit])] ++ modShapes    -- slices, records
+  | .modOnly => modShapes                                                                               -- time, nested structs, any
   | .none => []
 
 /-- scalar field types: a basic kind with a documented constructor, or a pointer to one -/
@@ -225,36 +235,50 @@ def scalarOf : Ty → Option Basic
 def classOfCtor (b : Basic) : CExpr → KindClass
   | .prim _ => b.cls
   | .uuid => .str
+  | .url => .str
   | .enum _ => .enum
   | _ => .none
+
+/-- the writer of the tree under check (regenerated structure facts) and the library's method table -/
+def WF := Gozod.Gen.writerFacts
+def T := Gozod.Gen.methodTable
 
 /-- the region: the tag is accepted, and every emitted call has one of the shapes of its schema class
     (decidable from the tag; `enum` with no member is outside) -/
 def typedRegion (t : Ty) (sn : Str) (rs : List Rule) : Bool :=
-  match scalarOf t, emitChain t sn rs with
+  match scalarOf t, emitChain WF t sn rs with
   | some b, some c =>
     c.calls.all (allowed (shapesOf (classOfCtor b c.ctor))) &&
     (match c.ctor with | .enum vals => !vals.isEmpty | _ => true)
   | _, _ => false
 
-def T := Gozod.Gen.methodTable
-
-def startOK (e : CExpr) (k : KindClass) : Bool :=
-  match ctorType T e with
+def startOK (ti : Bool) (e : CExpr) (k : KindClass) : Bool :=
+  match ctorType T ti e with
   | some ty =>
     let R := closure T (shapesOf k) 3 [ty]
     R.contains ty && closedB T R (shapesOf k)
   | none => false
 
-/-- THE OBLIGATION OVER THE WHOLE TABLE: for every basic constructor, `gozod.UUID()` and `gozod.Enum(…)`, the types
-    reachable through the shapes of its class exist, carry every method of the class with parameters that accept
-    every argument of the shape, and are closed under them. -/
+/-- THE OBLIGATION OVER THE WHOLE TABLE: for every basic constructor, `gozod.UUID()`, `gozod.Enum(…)` — and `gozod.URL()`
+    when the writer names it — the types reachable through the shapes of its class exist, carry every method of the class
+    with parameters that accept every argument of the shape, and are closed under them. -/
 theorem c13_table_closed :
-    (Basic.all.all fun b => b.cls == .none || startOK (.prim b) b.cls) = true ∧
-    startOK .uuid .str = true ∧ startOK (.enum [[0x22, 0x61, 0x22]]) .enum = true := by
-  refine ⟨by decide +kernel, by decide +kernel, by decide +kernel⟩
+    (Basic.all.all fun b => b.cls == .none || startOK false (.prim b) b.cls) = true ∧
+    startOK false .uuid .str = true ∧ startOK false (.enum [[0x22, 0x61, 0x22]]) .enum = true ∧
+    (!WF.urlCtor || startOK false .url .str) = true := by
+  refine ⟨by decide +kernel, by decide +kernel, by decide +kernel, by decide +kernel⟩
 
-theorem ctorType_enum_irrel (v w : List Str) (hv : v ≠ []) (hw : w ≠ []) : ctorType T (.enum v) = ctorType T (.enum w) := by
+/-- the same obligation for the constructors of the non-scalar field types: `gozod.Time()`, `gozod.FromStruct[N]()`,
+    `gozod.Any()` carry the modifiers; slices and records — once the writer emits them in a form that type-checks —
+    carry `Min` / `Max` / `Length` with an int parameter and the modifiers, closed. -/
+theorem c13_table_closed_containers :
+    startOK false .time .modOnly = true ∧ startOK false (.fromStruct (asc "Inner")) .modOnly = true ∧ startOK false .any .modOnly = true ∧
+    (!WF.sliceTyped || startOK false (.slice false (some (asc "string")) (.prim .string)) .sized) = true ∧
+    (!WF.recordTyped || (startOK false (.record false (some (asc "int")) (.prim .int)) .sized &&
+                         startOK false (.record true (some (asc "int")) (.prim .int)) .sized)) = true := by
+  refine ⟨by decide +kernel, by decide +kernel, by decide +kernel, by decide +kernel, by decide +kernel⟩
+
+theorem ctorType_enum_irrel (ti : Bool) (v w : List Str) (hv : v ≠ []) (hw : w ≠ []) : ctorType T ti (.enum v) = ctorType T ti (.enum w) := by
   cases v with
   | nil => exact absurd rfl hv
   | cons a as =>
@@ -262,20 +286,20 @@ theorem ctorType_enum_irrel (v w : List Str) (hv : v ≠ []) (hw : w ≠ []) : c
     | nil => exact absurd rfl hw
     | cons b bs => simp [ctorType]
 
-theorem wellTyped_of_startOK (c : Chain) (k : KindClass) (hs : startOK c.ctor k = true)
-    (hall : c.calls.all (allowed (shapesOf k)) = true) : wellTyped T c = some true := by
+theorem wellTyped_of_startOK (ti : Bool) (c : Chain) (k : KindClass) (hs : startOK ti c.ctor k = true)
+    (hall : c.calls.all (allowed (shapesOf k)) = true) : wellTyped T ti c = some true := by
   unfold startOK at hs
-  cases h0 : ctorType T c.ctor with
+  cases h0 : ctorType T ti c.ctor with
   | none => simp [h0] at hs
   | some ty =>
     simp only [h0, Bool.and_eq_true] at hs
-    exact wellTyped_of_allowed T (shapesOf k) _ c ty h0 (by simpa using hs.1) hs.2 hall
+    exact wellTyped_of_allowed T ti (shapesOf k) _ c ty h0 (by simpa using hs.1) hs.2 hall
 
 /-- Full statement: every expression gozodgen emits for a scalar field type-checks against the library. -/
 def c13_welltyped_full : Prop :=
-  ∀ (t : Ty) (sn : Str) (rs : List Rule) (c : Chain), (scalarOf t).isSome → emitChain t sn rs = some c → wellTyped T c = some true
+  ∀ (t : Ty) (sn : Str) (rs : List Rule) (c : Chain), (scalarOf t).isSome → emitChain WF t sn rs = some c → wellTyped T false c = some true
 
-theorem baseCtor_scalar (t : Ty) (sn : Str) (b : Basic) (hb : scalarOf t = some b) : baseCtor t sn = .prim b := by
+theorem baseCtor_scalar (t : Ty) (sn : Str) (b : Basic) (hb : scalarOf t = some b) : baseCtor WF t sn = .prim b := by
   cases t with
   | basic b0 =>
     simp only [scalarOf] at hb
@@ -301,23 +325,26 @@ theorem scalar_cls (t : Ty) (b : Basic) (hb : scalarOf t = some b) : b.cls ≠ .
     | _ => simp [scalarOf] at hb
   | _ => simp [scalarOf] at hb
 
-/-- the three shapes of `generateFieldSchemaCode` -/
-theorem emitChain_ctor (t : Ty) (sn : Str) (rs : List Rule) (c : Chain) (he : emitChain t sn rs = some c) :
-    c.ctor = baseCtor t sn ∨ c.ctor = .uuid ∨ ∃ vals, c.ctor = .enum vals := by
+/-- the four shapes of `generateFieldSchemaCode` -/
+theorem emitChain_ctor (W : WriterFacts) (t : Ty) (sn : Str) (rs : List Rule) (c : Chain) (he : emitChain W t sn rs = some c) :
+    c.ctor = baseCtor W t sn ∨ c.ctor = .uuid ∨ (W.urlCtor = true ∧ c.ctor = .url) ∨ ∃ vals, c.ctor = .enum vals := by
   unfold emitChain at he
   simp only at he
   split at he
   · simp only [Option.map_eq_some_iff] at he; obtain ⟨_, _, rfl⟩ := he; exact Or.inr (Or.inl rfl)
   · split at he
+    · rename_i hu
+      simp only [Option.map_eq_some_iff] at he; obtain ⟨_, _, rfl⟩ := he; exact Or.inr (Or.inr (Or.inl ⟨hu.1, rfl⟩))
     · split at he
-      · cases he
-      · simp only [Option.map_eq_some_iff] at he; obtain ⟨_, _, rfl⟩ := he; exact Or.inr (Or.inr ⟨_, rfl⟩)
-    · simp only [Option.map_eq_some_iff] at he; obtain ⟨_, _, rfl⟩ := he; exact Or.inl rfl
+      · split at he
+        · cases he
+        · simp only [Option.map_eq_some_iff] at he; obtain ⟨_, _, rfl⟩ := he; exact Or.inr (Or.inr (Or.inr ⟨_, rfl⟩))
+      · simp only [Option.map_eq_some_iff] at he; obtain ⟨_, _, rfl⟩ := he; exact Or.inl rfl
 
 /-- **Every emitted expression of the region type-checks against the whole regenerated method table** —
     all scalar field types, all struct names, all rule lists (any length, any order, any parameters of the shapes). -/
 theorem c13_welltyped_partial (t : Ty) (sn : Str) (rs : List Rule) (c : Chain)
-    (hr : typedRegion t sn rs = true) (he : emitChain t sn rs = some c) : wellTyped T c = some true := by
+    (hr : typedRegion t sn rs = true) (he : emitChain WF t sn rs = some c) : wellTyped T false c = some true := by
   unfold typedRegion at hr
   cases hb : scalarOf t with
   | none => simp [hb] at hr
@@ -326,68 +353,198 @@ theorem c13_welltyped_partial (t : Ty) (sn : Str) (rs : List Rule) (c : Chain)
     obtain ⟨hall, hen⟩ := hr
     have hcl := c13_table_closed
     have hbcls := scalar_cls t b hb
-    rcases emitChain_ctor t sn rs c he with hct | hct | ⟨vals, hct⟩
+    rcases emitChain_ctor WF t sn rs c he with hct | hct | ⟨hu, hct⟩ | ⟨vals, hct⟩
     · rw [baseCtor_scalar t sn b hb] at hct
-      have hst : startOK (.prim b) b.cls = true := by
+      have hst : startOK false (.prim b) b.cls = true := by
         have := List.all_eq_true.mp hcl.1 b (by cases b <;> decide)
         simpa [hbcls] using this
       rw [hct] at hall; simp only [classOfCtor] at hall
-      exact wellTyped_of_startOK c b.cls (by rw [hct]; exact hst) hall
+      exact wellTyped_of_startOK false c b.cls (by rw [hct]; exact hst) hall
     · rw [hct] at hall; simp only [classOfCtor] at hall
-      exact wellTyped_of_startOK c .str (by rw [hct]; exact hcl.2.1) hall
+      exact wellTyped_of_startOK false c .str (by rw [hct]; exact hcl.2.1) hall
+    · rw [hct] at hall; simp only [classOfCtor] at hall
+      have hst : startOK false .url .str = true := by
+        have := hcl.2.2.2
+        simpa [hu] using this
+      exact wellTyped_of_startOK false c .str (by rw [hct]; exact hst) hall
     · rw [hct] at hall hen; simp only [classOfCtor] at hall
       have hv : vals ≠ [] := by intro h; subst h; simp at hen
-      have hst : startOK (.enum vals) .enum = true := by
-        have h := hcl.2.2
+      have hst : startOK false (.enum vals) .enum = true := by
+        have h := hcl.2.2.1
         unfold startOK at h ⊢
-        rw [ctorType_enum_irrel vals [[0x22, 0x61, 0x22]] hv (by simp)]
+        rw [ctorType_enum_irrel false vals [[0x22, 0x61, 0x22]] hv (by simp)]
         exact h
-      exact wellTyped_of_startOK c .enum (by rw [hct]; exact hst) hall
+      exact wellTyped_of_startOK false c .enum (by rw [hct]; exact hst) hall
 
-/-! ## the full statement is false; the region is inhabited -/
+/-! ## every kind of field type: the rows of the kind × tag table, judged against the whole regenerated method table -/
 
 def rule (n : String) (ps : List String := []) : Rule := ⟨asc n, if ps.isEmpty then none else some (ps.map asc)⟩
 
-/-- the judgement on what gozodgen emits for `F <t> \`gozod:"…"\`` in `type <sn> struct` -/
-def wt (t : Ty) (sn : String) (rs : List Rule) : Option Bool := (emitChain t (asc sn) rs).bind (wellTyped T)
+/-- `why` refines the typing judgement: it says `ok` exactly where `wellTyped` ∧ `importsUsed` hold -/
+def whyAgrees (W : WriterFacts) (t : Ty) (sn : String) (rs : List Rule) : Bool :=
+  match emitChain W t (asc sn) rs with
+  | none => true
+  | some c =>
+    let ti := timeImported W [rs] [c]
+    match why T W t sn rs, wellTyped T ti c with
+    | .ok, some true => importsUsed W [rs] [c]
+    | .ill _, some false => true
+    | .ill _, some true => !importsUsed W [rs] [c]
+    | .ill _, none => !importsUsed W [rs] [c]
+    | .unjudged, none => true
+    | _, _ => false
 
-/-- one witness per class of generated file that does not type-check (each re-derived by `go build` in the tie) -/
+def self : Ty := .named (asc "S")
+def inner : Ty := .named (asc "Inner")
+
+/-- the tags of harness/cmd/c13/wide.go `kindTags`, per class of field type -/
+def numTags : List (List Rule) :=
+  [[], [rule "required"], [rule "min" ["1"]], [rule "max" ["100"]], [rule "gt" ["0"], rule "lte" ["9"]], [rule "default" ["3"]],
+   [rule "min" ["1"], rule "max" ["5"], rule "required"], [rule "gte" ["2.5"]], [rule "max" ["300"]], [rule "min" ["-1"]],
+   [rule "max" ["4294967296"]], [rule "max" ["9223372036854775808"]], [rule "lt" ["1.0"]], [rule "positive"], [rule "length" ["2"]]]
+def boolTags : List (List Rule) := [[], [rule "required"], [rule "default" ["true"]], [rule "prefault" ["false"]], [rule "min" ["1"]]]
+def otherTags : List (List Rule) :=
+  [[], [rule "required"], [rule "min" ["1"]], [rule "max" ["3"]], [rule "required", rule "min" ["1"]], [rule "nilable"], [rule "length" ["2"]], [rule "nonempty"]]
+def strTags : List (List Rule) :=
+  [[], [rule "nilable", rule "min" ["1"]], [rule "prefault" ["x"]], [rule "min" ["1.5"]], [rule "gt" ["1"]], [rule "uuid", rule "email"],
+   [rule "enum" ["a", "b"], rule "required"], [rule "enum" ["a"]], [rule "regex" ["^a$"], rule "uuid"], [rule "default" ["a", "b", "c"]],
+   [rule "email", rule "email"], [rule "url"], [rule "url", rule "min" ["3"]], [rule "enum" ["a", "b"], rule "min" ["2"]], [rule "length" ["3"]],
+   [rule "nonempty"], [rule "uuid", rule "url"]]
+
+def numKinds : List Ty :=
+  [.basic .int8, .basic .int16, .basic .int32, .basic .uint, .basic .uint8, .basic .uint16, .basic .uint32, .basic .uint64, .basic .float32,
+   .ptr (.basic .float32), .ptr (.basic .int8), .ptr (.basic .uint64), .basic .int, .basic .float64, .ptr (.basic .int64)]
+def boolKinds : List Ty := [.basic .bool, .ptr (.basic .bool)]
+def strKinds : List Ty := [.basic .string, .ptr (.basic .string)]
+def otherKinds : List Ty :=
+  [.basic .complex128, .time, .ptr .time, .slice .time, inner, .ptr inner, .slice inner, .slice (.ptr inner),
+   .map (.basic .string) inner, .map (.basic .string) (.ptr inner), .slice (.basic .string), .slice (.ptr (.basic .string)),
+   .slice (.slice (.basic .int)), .ptr (.slice (.basic .int)), .ptr (.slice (.ptr inner)), .map (.basic .string) (.basic .int),
+   .map (.basic .string) (.slice (.basic .int)), .map (.basic .string) (.map (.basic .string) (.basic .bool)),
+   .ptr (.map (.basic .string) (.basic .string)), .map (.basic .int) (.basic .string), .ptr (.ptr (.basic .int)),
+   .map (.basic .string) (.ptr .time), .map (.basic .string) (.ptr (.basic .string)), .map (.basic .string) (.ptr (.slice (.basic .int))),
+   .ptr self, .slice self, .slice (.ptr self), .map (.basic .string) self, .map (.basic .string) (.ptr self), .slice (.slice (.ptr self)), .ptr (.slice self)]
+
+/-- THE ROWS: every kind of field type the writer distinguishes × the tags of its class (struct name `S`) -/
+def kindRows : List (Ty × List Rule) :=
+  numKinds.flatMap (fun t => numTags.map (t, ·)) ++ boolKinds.flatMap (fun t => boolTags.map (t, ·)) ++
+  strKinds.flatMap (fun t => strTags.map (t, ·)) ++ otherKinds.flatMap (fun t => otherTags.map (t, ·))
+
+def dedup : List String → List String
+  | [] => []
+  | x :: xs => if xs.contains x then dedup xs else x :: dedup xs
+
+
+theorem mem_dedup : ∀ (l : List String) (x : String), x ∈ l → x ∈ dedup l
+  | [], _, h => by cases h
+  | y :: ys, x, h => by
+    simp only [dedup]
+    by_cases hc : ys.contains y = true
+    · simp only [hc, if_true]
+      rcases List.mem_cons.mp h with rfl | h'
+      · exact mem_dedup ys x (by simpa using hc)
+      · exact mem_dedup ys x h'
+    · simp only [hc]
+      rcases List.mem_cons.mp h with rfl | h'
+      · simp
+      · exact List.mem_cons_of_mem _ (mem_dedup ys x h')
+
+/-- the classes of rows that do not type-check, under writer `W` -/
+def illClasses (W : WriterFacts) : List String :=
+  dedup (kindRows.filterMap fun r => match why T W r.1 "S" r.2 with | .ill c => some c | _ => none)
+
+/-- every row is judged, and the reason given agrees with `wellTyped` ∧ `importsUsed` -/
+theorem c13_rows_judged :
+    (kindRows.all fun r => why T WF r.1 "S" r.2 != .unjudged && whyAgrees WF r.1 "S" r.2) = true := by decide +kernel
+
+/-- **The rows that do not type-check are listed `open:` classes** (`Gen.openCompileClasses`, regenerated from
+    known-findings.txt): over every kind of field type × tag of its class, against the whole regenerated method table and
+    the writer of the tree under check, a generated file fails to type-check only for a reason that is a listed class.
+    A new way of emitting code that does not compile breaks this obligation; a repaired class simply has no row any more. -/
+theorem c13_illtyped_rows_are_open :
+    (illClasses WF).all (fun c => Gozod.Gen.openCompileClasses.contains c) = true := by decide +kernel
+
+/-- Full statement over the rows: every generated file type-checks. -/
+def c13_rows_full : Prop := ∀ r ∈ kindRows, why T WF r.1 "S" r.2 = .ok
+
+/-- … outside the listed classes (what `c13_illtyped_rows_are_open` says, row by row) -/
+theorem c13_rows_partial : ∀ r ∈ kindRows, (∀ c ∈ Gozod.Gen.openCompileClasses, why T WF r.1 "S" r.2 ≠ .ill c) → why T WF r.1 "S" r.2 = .ok := by
+  intro r hr hno
+  have hj := List.all_eq_true.mp c13_rows_judged r hr
+  simp only [Bool.and_eq_true, bne_iff_ne, ne_eq] at hj
+  have ho := c13_illtyped_rows_are_open
+  cases hw : why T WF r.1 "S" r.2 with
+  | ok => rfl
+  | unjudged => exact absurd hw hj.1
+  | ill c =>
+    exfalso
+    have hmem : c ∈ illClasses WF := by
+      unfold illClasses
+      have : c ∈ kindRows.filterMap (fun r => match why T WF r.1 "S" r.2 with | .ill c => some c | _ => none) :=
+        List.mem_filterMap.mpr ⟨r, hr, by simp [hw]⟩
+      exact mem_dedup _ _ this
+    have := List.all_eq_true.mp ho c hmem
+    exact hno c (by simpa using this) hw
+
+/-! ## witnesses: the writer of round 4 (`WriterFacts.legacy`), and what is left in the tree under check -/
+
+/-- the judgement on what a writer emits for `F <t> \`gozod:"…"\`` in `type <sn> struct` -/
+def wt (W : WriterFacts) (t : Ty) (sn : String) (rs : List Rule) : Option Bool :=
+  (emitChain W t (asc sn) rs).bind fun c => wellTyped T (timeImported W [rs] [c]) c
+
+/-- one witness per class of generated file that does not type-check under the writer of round 4
+    (each re-derived by `go build` in the tie while that writer is the tree's) -/
 theorem c13_illtyped_witnesses :
-    wt (.basic .string) "C" [rule "url"] = some false ∧                                   -- ZodString has no method URL
-    wt (.basic .string) "C" [rule "enum" ["a", "b"], rule "min" ["2"]] = some false ∧     -- gozod.Enum("a", "b").Min(2)
-    wt (.slice (.basic .string)) "C" [rule "required"] = some false ∧                     -- gozod.Slice(elem): T cannot be inferred
-    wt (.map (.basic .string) (.basic .int)) "C" [rule "required"] = some false ∧         -- gozod.Record(value): one argument short
-    wt (.ptr (.slice (.basic .int))) "C" [rule "min" ["1"]] = some false ∧                -- gozod.FromStruct[[]int]().Min(1)
-    wt (.ptr (.named (asc "C"))) "C" [rule "required"] = some false ∧                     -- gozod.Lazy(func() gozod.ZodType[any] { return gozod.FromStruct[C]() })
-    wt (.slice (.ptr (.named (asc "C")))) "C" [] = some false ∧
-    wt (.ptr .time) "C" [rule "required"] = some false ∧                                  -- gozod.FromStruct[time.Time](): package time is not imported
-    wt (.basic .uint64) "C" [rule "max" ["18446744073709551615"]] = some false ∧          -- Max takes an int64
-    wt (.basic .int) "C" [rule "gt" ["2.5"]] = some false ∧                               -- constant 2.5 truncated
-    wt (.basic .string) "C" [rule "gt" ["2"]] = some false ∧                              -- ZodString has no Gt
-    wt (.basic .bool) "C" [rule "min" ["1"]] = some false := by
+    wt .legacy (.basic .string) "C" [rule "url"] = some false ∧                                   -- ZodString has no method URL
+    wt .legacy (.basic .string) "C" [rule "enum" ["a", "b"], rule "min" ["2"]] = some false ∧     -- gozod.Enum("a", "b").Min(2)
+    wt .legacy (.slice (.basic .string)) "C" [rule "required"] = some false ∧                     -- gozod.Slice(elem): T cannot be inferred
+    wt .legacy (.map (.basic .string) (.basic .int)) "C" [rule "required"] = some false ∧         -- gozod.Record(value): one argument short
+    wt .legacy (.ptr (.slice (.basic .int))) "C" [rule "min" ["1"]] = some false ∧                -- gozod.FromStruct[[]int]().Min(1)
+    wt .legacy (.ptr (.named (asc "C"))) "C" [rule "required"] = some false ∧                     -- gozod.Lazy(func() gozod.ZodType[any] { return gozod.FromStruct[C]() })
+    wt .legacy (.slice (.ptr (.named (asc "C")))) "C" [] = some false ∧
+    wt .legacy (.ptr .time) "C" [rule "required"] = some false ∧                                  -- gozod.FromStruct[time.Time](): package time is not imported
+    wt .legacy (.basic .uint64) "C" [rule "max" ["18446744073709551615"]] = some false ∧          -- Max takes an int64
+    wt .legacy (.basic .int) "C" [rule "gt" ["2.5"]] = some false ∧                               -- constant 2.5 truncated
+    wt .legacy (.basic .string) "C" [rule "gt" ["2"]] = some false ∧                              -- ZodString has no Gt
+    wt .legacy (.basic .bool) "C" [rule "min" ["1"]] = some false := by
   decide +kernel
 
+/-- the self reference through a pointer or a slice is emitted the same way by every known writer (writer_test.go pins
+    the text), and it does not type-check: `*ZodStruct[C, C]` is no `ZodType[any]` -/
+theorem c13_lazy_self_reference_pinned :
+    wt WF (.ptr (.named (asc "C"))) "C" [rule "required"] = some false ∧ wt WF (.slice (.ptr (.named (asc "C")))) "C" [] = some false ∧
+    wt .repaired (.ptr (.named (asc "C"))) "C" [rule "required"] = some false := by
+  decide +kernel
+
+/-- `.IPv4()` / `.IPv6()` (rules outside docs/tags.md, cases of generateValidatorChain): no such method on ZodString, in every known writer -/
 theorem c13_welltyped_full_false : ¬ c13_welltyped_full := by
   intro h
-  have w := c13_illtyped_witnesses.1
+  have w : wt WF (.basic .string) "C" [rule "ipv4"] = some false := by decide +kernel
   unfold wt at w
-  cases he : emitChain (.basic .string) (asc "C") [rule "url"] with
+  cases he : emitChain WF (.basic .string) (asc "C") [rule "ipv4"] with
   | none => rw [he] at w; cases w
   | some c =>
     rw [he] at w
-    have := h (.basic .string) (asc "C") [rule "url"] c (by decide) he
+    have := h (.basic .string) (asc "C") [rule "ipv4"] c (by decide) he
     simp only [Option.bind] at w
-    rw [this] at w; cases w
+    have hti : timeImported WF [[rule "ipv4"]] [c] = false := by
+      have : (emitChain WF (.basic .string) (asc "C") [rule "ipv4"]).map (fun c => timeImported WF [[rule "ipv4"]] [c]) = some false := by decide +kernel
+      rw [he] at this; simpa using this
+    rw [hti, this] at w; cases w
 
-/-- unused imports: `trim` / `lowercase` / `uppercase` write `import "strings"`, `url` writes `net/url`, `ipv4` `net`,
-    `refine` the core package, and a `regex` rule without parameter `regexp` — no emitted expression uses them -/
+/-- unused imports: `trim` / `lowercase` / `uppercase` write `import "strings"`, `ipv4` `net`, `refine` the core package,
+    and a `regex` rule without parameter `regexp` — no emitted expression uses them; the writer of round 4 also wrote
+    `net/url` for `url` -/
 theorem c13_unused_import_witnesses :
-    (["trim", "lowercase", "uppercase", "url", "ipv4", "ipv6", "refine", "check", "regex"].all fun n =>
-      match emitChain (.basic .string) (asc "C") [rule n] with
-      | some c => !importsUsed [[rule n]] [c]
+    (["trim", "lowercase", "uppercase", "ipv4", "ipv6", "refine", "check", "regex"].all fun n =>
+      match emitChain WF (.basic .string) (asc "C") [rule n] with
+      | some c => !importsUsed WF [[rule n]] [c]
       | none => false) = true ∧
-    (match emitChain (.basic .string) (asc "C") [rule "regex" ["^a$"]] with
-      | some c => importsUsed [[rule "regex" ["^a$"]]] [c]
+    (match emitChain .legacy (.basic .string) (asc "C") [rule "url"] with
+      | some c => !importsUsed .legacy [[rule "url"]] [c]
+      | none => false) = true ∧
+    (match emitChain WF (.basic .string) (asc "C") [rule "regex" ["^a$"]] with
+      | some c => importsUsed WF [[rule "regex" ["^a$"]]] [c]
       | none => false) = true := by
   decide +kernel
 
@@ -398,21 +555,24 @@ example : typedRegion (.basic .string) (asc "C") [rule "enum" ["red", "green"], 
 example : typedRegion (.basic .int8) (asc "C") [rule "gte" ["-5"], rule "lt" ["100"], rule "default" ["3"]] = true := by decide +kernel
 example : typedRegion (.ptr (.basic .float32)) (asc "C") [rule "gt" ["0.5"], rule "max" ["10"], rule "required"] = true := by decide +kernel
 example : typedRegion (.basic .bool) (asc "C") [rule "default" ["true"]] = true := by decide +kernel
-example : wt .time "C" [rule "required"] = some true ∧ wt (.named (asc "Inner")) "C" [] = some true ∧
-    wt (.ptr (.named (asc "Inner"))) "C" [rule "required"] = some true := by decide +kernel
+example : wt WF .time "C" [rule "required"] = some true ∧ wt WF (.named (asc "Inner")) "C" [] = some true ∧
+    wt WF (.ptr (.named (asc "Inner"))) "C" [rule "required"] = some true := by decide +kernel
 
 /-! ## the names the model can emit are the names in the string literals of writer.go -/
 
-def modelMethods : List String :=
-  ["Check", "Default", "Email", "Gt", "Gte", "IPv4", "IPv6", "Lt", "Lte", "Max", "Min", "Nilable", "Optional", "Prefault",
-   "Refine", "Regex", "ToLowerCase", "ToUpperCase", "Trim", "URL"]
+def modelMethods (W : WriterFacts) : List String :=
+  ["Check", "Default", "Email", "Gt", "Gte", "IPv4", "IPv6"] ++ (if W.extraRules then ["Length"] else []) ++ ["Lt", "Lte", "Max", "Min"] ++
+  (if W.extraRules then ["Negative"] else []) ++ ["Nilable"] ++ (if W.extraRules then ["NonNegative", "NonPositive"] else []) ++ ["Optional"] ++
+  (if W.extraRules then ["Positive"] else []) ++ ["Prefault", "Refine", "Regex", "ToLowerCase", "ToUpperCase", "Trim", "URL"]
 
-def modelCtors : List String :=
-  ["Any", "Enum", "FromStruct", "Lazy", "Record", "Slice", "Time", "UUID"] ++ Basic.all.map Basic.ctorName
+def modelCtors (W : WriterFacts) : List String :=
+  ["Any", "Enum", "FromStruct", "Lazy", "Record", "Slice", "Time", "UUID"] ++ Basic.all.map Basic.ctorName ++
+  (if W.urlCtor then ["URL"] else []) ++
+  (if W.recordTyped then ["FromStructPtr", "RecordPtr", "SlicePtr", "TimePtr"] ++ Basic.all.map (·.ctorName ++ "Ptr") else [])
 
 /-- go/ast over writer.go finds exactly the `.Name(` and `gozod.Name(` literals the transcription emits (sorted lists) -/
 theorem c13_emitted_names :
-    T.emittedMethods = modelMethods ∧ (∀ c ∈ T.emittedCtors, c ∈ modelCtors) ∧ (∀ c ∈ modelCtors, c ∈ T.emittedCtors) := by
+    T.emittedMethods = modelMethods WF ∧ (∀ c ∈ T.emittedCtors, c ∈ modelCtors WF) ∧ (∀ c ∈ modelCtors WF, c ∈ T.emittedCtors) := by
   decide +kernel
 
 end Gozod.C13
